@@ -1079,7 +1079,7 @@ class yanny(OrderedDict):
         #
         # Double empty braces get replaced with empty quotes
         #
-        double_braces = re.compile(r'\{\s*\{\s*\}\s*\}')
+        double_braces = re.compile(r'("[^"]*")|(?<!\S)\{\s*\{\s*\}\s*\}(?!\S)')
         if len(lines) > 0:
             for line in lines.split('\n'):
                 if len(line) == 0:
@@ -1094,7 +1094,12 @@ class yanny(OrderedDict):
                 line = line.strip()
                 line = self.trailing_comment(line)
                 # line = trailing_comments.sub('',line)
-                line = double_braces.sub('""', line)
+                #
+                # Only a token of its own is an empty string; the same
+                # characters inside a word or a quoted string are data.
+                #
+                rawline = line
+                line = double_braces.sub(lambda m: m.group(1) or '""', line)
                 #
                 # Now if the first word on the line does not match a
                 # structure definition it is a keyword/value pair
@@ -1137,7 +1142,7 @@ class yanny(OrderedDict):
                     #
                     # Keyword/value pair
                     #
-                    self[key] = value
+                    self[key] = self.get_token(rawline)[1]
         #
         # If self.raw is False, convert tables into NumPy record arrays
         #
